@@ -75,6 +75,20 @@ func scenExec(out *scenOut, r *rng, thorough bool) {
 	} {
 		execOnce(out, c.bits, c.hist, 2, false, true, "quit", false, 60)
 	}
+	// modes changed BETWEEN consecutive execs (indices: 0 enteralt 1 exitalt 5 paste 6 nopaste 7 focus 8 nofocus)
+	for _, c := range []struct {
+		bits    int
+		between [][]int
+	}{
+		{8, [][]int{{5}}},            // paste off at the first exec, switched on, second exec
+		{0, [][]int{{6}, {5}}},       // on, off, on
+		{1 | 16, [][]int{{1, 8}}},    // alt screen and focus reporting at the first exec, both off at the second
+		{0, [][]int{{0, 7}, {1, 8}}}, // off, on, off
+	} {
+		execBetweenCmds = c.between
+		execOnce(out, c.bits, nil, len(c.between)+1, false, true, "quit", false, 60)
+		execBetweenCmds = nil
+	}
 	execNilInput(out)
 	execReleaseFails(out, "quit-msg")
 	execAfterEOF(out)
@@ -288,6 +302,10 @@ func execChild(out *scenOut, childName, key, desc, what string) {
 	}
 }
 
+// execBetweenCmds: mode commands (indices into modeCmds) sent after the k-th exec of the next
+// execOnce call, before the following one (set by the caller, reset afterwards).
+var execBetweenCmds [][]int
+
 func execOnce(out *scenOut, bits int, hist []int, nexec int, fail, withCallback bool, end string, constView bool, fps int) {
 	o := modeOpts{alt: bits&1 != 0, cell: bits&2 != 0, all: bits&4 != 0, nopaste: bits&8 != 0, focus: bits&16 != 0}
 	var names []string
@@ -295,6 +313,13 @@ func execOnce(out *scenOut, bits int, hist []int, nexec int, fail, withCallback 
 		names = append(names, modeCmds[i].name)
 	}
 	desc := fmt.Sprintf("opts{%s} cmds=[%s] execs=%d fail=%t callback=%t end=%s constant-view=%t fps=%d", o, strings.Join(names, ","), nexec, fail, withCallback, end, constView, fps)
+	for k, bc := range execBetweenCmds {
+		var bn []string
+		for _, i := range bc {
+			bn = append(bn, modeCmds[i].name)
+		}
+		desc += fmt.Sprintf(" after-exec-%d=[%s]", k+1, strings.Join(bn, ","))
+	}
 	ctl := newRecCtl()
 	buf := &safeBuffer{}
 	pr, pw, err := os.Pipe()
@@ -437,6 +462,16 @@ func execOnce(out *scenOut, bits int, hist []int, nexec int, fail, withCallback 
 		pw.Write([]byte("k"))
 		if !waitFor(2*time.Second, func() bool { return ctl.log.count("update-enter", "key ") > kBefore }) {
 			problem("input is not read again after the exec")
+		}
+		// mode commands between this exec and the next: what counts at the next exec is the state then,
+		// not what an earlier exec remembered
+		if e-1 < len(execBetweenCmds) {
+			for _, i := range execBetweenCmds[e-1] {
+				run.p.Send(modeCmds[i].msg())
+				modeCmds[i].apply(&spec)
+			}
+			run.p.Send(userMsg{6, e})
+			waitFor(2*time.Second, func() bool { return ctl.log.has("update-exit", fmt.Sprintf("u6.%d", e)) })
 		}
 	}
 	if !ended {
